@@ -121,7 +121,9 @@ TSend ==
      THEN Step(<<Known(Line.m), NoExpect>> \o TW!SendRemoteChecks(R, Line.lp, Line.m, Content), TW!SendRemote(R, Line.lp, Line.m, Content))
      ELSE Step(<<Known(Line.m), NoExpect>> \o TW!SendChecks(R, Line.lp, Line.m), TW!Send(R, Line.lp, Line.m))
   /\ UNCHANGED <<expect, div>>
-NetRec == [kind |-> Line.kind, t |-> Line.t, id |-> Line.id, sq |-> Line.sq, src |-> R, nm |-> Line.nm]
+\* for an anti-message the fake MPI logs the sender's buffer of the send being cancelled: its network identity is the true identity
+NetRec == [kind |-> Line.kind, t |-> Line.t, id |-> Line.id, sq |-> Line.sq, src |-> R, nm |-> Line.nm,
+           pnm |-> IF Line.kind = "anti" /\ Line.m \in DOMAIN msg THEN msg[Line.m].nm ELSE 0]
 TNetSend == IsEvent("NetSend") /\ Step(TW!NetSendChecks(R, Line.nm, NetRec), TW!NetSend(R, Line.nm, NetRec)) /\ UNCHANGED <<expect, div>>
 TNetRecv == IsEvent("NetRecv") /\ Step(TW!NetRecvChecks(R, Line.nm), TW!NetRecv(R, Line.nm)) /\ UNCHANGED <<expect, div>>
 TAntiRemote == IsEvent("AntiRemote") /\ Step(<<Known(Line.m), NoExpect>> \o TW!AntiRemoteChecks(R, Line.m), TW!AntiRemote(R, Line.m)) /\ UNCHANGED <<expect, div>>
@@ -232,6 +234,13 @@ TTermLp ==
   /\ UNCHANGED <<expect, div>>
 TTermUndo == IsEvent("TermUndo") /\ Step(<<>>, TW!TermUndo(R, Line.lp, Line.keep = 1)) /\ UNCHANGED <<expect, div>>
 TVote == IsEvent("Vote") /\ Step(TW!VoteChecks(R, Line.gvt, TermTime), TW!Vote(R, Line.gvt)) /\ UNCHANGED <<expect, div>>
+\* the model handler was handed an event that no LP ever scheduled (the harness abandons the run after reporting it)
+TBadDispatch ==
+  /\ IsEvent("BadDispatch")
+  /\ LET w == IF Line.silent = 1 THEN "coast forward re-executed an entry of the history that is not an event of the LP (the model was handed an event nobody scheduled)"
+                                ELSE "the model was handed an event that nobody scheduled" IN
+     Step(<< <<FALSE, "C05", w>>, <<FALSE, "C01", w>>, <<FALSE, "C02", w>>, <<FALSE, "C06", w>>, <<FALSE, "C09", w>>, <<FALSE, "C03", w>>, <<FALSE, "C11", w>> >>, UNCHANGED twvars)
+  /\ UNCHANGED <<expect, div>>
 TStop == IsEvent("Stop") /\ Step(<<>>, TW!Stop) /\ UNCHANGED <<expect, div>>
 TLoopExit == IsEvent("LoopExit") /\ Step(<<NoExpect, TW!NoPendingVote(R)>> \o TW!LoopExitChecks(R, TermTime), TW!LoopExit(R)) /\ UNCHANGED <<expect, div>>
 
@@ -276,7 +285,7 @@ TCrash ==
 
 TNext ==
   \/ TConfig \/ TReset \/ TSkip \/ TAlloc \/ TLpInit \/ TPush \/ TSend \/ TDrain \/ TExtract \/ TFlag \/ TRbBegin \/ TAntiLocal
-  \/ TUndo \/ TRestore \/ TRbEnd \/ TExec \/ TCkpt \/ TFossil \/ TFree \/ TGvt \/ TTermLp \/ TTermUndo \/ TVote \/ TStop
+  \/ TUndo \/ TRestore \/ TRbEnd \/ TExec \/ TCkpt \/ TFossil \/ TFree \/ TGvt \/ TTermLp \/ TTermUndo \/ TVote \/ TStop \/ TBadDispatch
   \/ TLoopExit \/ TTermCtrl \/ TNetSend \/ TNetRecv \/ TAntiRemote \/ TFreeAtGvt \/ TEarlyStore \/ TEarlyMatch \/ TRAntiMatch \/ TFiniStage \/ TLpFini \/ TEnd \/ THang \/ TCrash
 TSpec == TInit /\ [][TNext]_tvars
 
